@@ -194,17 +194,26 @@ def chain_strategy():
         def fm(base, h, w, d):
             return dict(dtype="int8", region=1, shape=[h, w, d], layout=layout, tiles=[h, 0, w, [base, 0, 0, 0]], zp=0, scale=0.05, strides=None)
 
-        k = draw(st.sampled_from([1, 2, 3, 3]))
+        # kernel height and width independently, also beyond the 8x8 sub-kernel (decomposed by the hardware inside a block job), with dilation
+        kh = draw(st.sampled_from([1, 2, 3, 3, 1, 5, 7, 9, 12]))
+        kw = draw(st.sampled_from([1, 2, 3, 3, 1, 5, 7, 9, 12]))
+        dy, dx = draw(st.sampled_from([1, 1, 1, 2])), draw(st.sampled_from([1, 1, 1, 2]))
+        if draw(st.booleans()):
+            kw, dx = kh, dy
         sy, sx = draw(st.sampled_from([1, 2, 2, 3])), draw(st.sampled_from([1, 2]))
-        pt, pl, pb, pr = (draw(st.integers(0, k - 1)) for _ in range(4))
-        oh = (H + pt + pb - k) // sy + 1
-        ow = (W + pl + pr - k) // sx + 1
+        dkh, dkw = (kh - 1) * dy + 1, (kw - 1) * dx + 1
+        pt, pb = draw(st.integers(0, min(dkh - 1, 3))), draw(st.integers(0, min(dkh - 1, 3)))
+        pl, pr = draw(st.integers(0, min(dkw - 1, 3))), draw(st.integers(0, min(dkw - 1, 3)))
+        if dkh > H or dkw > W:
+            H, W = max(H, dkh + draw(st.integers(0, 6))), max(W, dkw + draw(st.integers(0, 6)))
+        oh = (H + pt + pb - dkh) // sy + 1
+        ow = (W + pl + pr - dkw) // sx + 1
         if oh < 1 or ow < 1:
-            k, sy, sx, pt, pl, pb, pr = 1, 1, 1, 0, 0, 0, 0
+            kh, kw, dy, dx, dkh, dkw, sy, sx, pt, pl, pb, pr = 1, 1, 1, 1, 1, 1, 1, 1, 0, 0, 0, 0
             oh, ow = H, W
         # shrink the input rows actually needed so that the hardware-derived extent equals the map
-        H2 = (oh - 1) * sy + k - pt - pb
-        W2 = (ow - 1) * sx + k - pl - pr
+        H2 = (oh - 1) * sy + dkh - pt - pb
+        W2 = (ow - 1) * sx + dkw - pl - pr
         nc = hw.ACCELS[accel]["cores"]
         a_kind = draw(st.sampled_from(["conv", "conv", "elementwise"]))
         X = fm(0x10000, H2, W2, d2)
@@ -214,7 +223,16 @@ def chain_strategy():
         else:
             A = dict(kind="elementwise", block_index=draw(st.integers(0, 60)), rounding="TFL", mode="ABS", ifm=fm(0x0, H2, W2, d2), ofm=X)
         b_kind = draw(st.sampled_from(["conv", "conv", "depthwise", "pool"]))
-        B = dict(kind=b_kind, block_index=draw(st.integers(0, 60)), rounding="TFL", kernel=[k, k, sx, sy, 1, 1], padding=[pt, pl, pb, pr], upscale="NONE",
+        if b_kind == "pool":
+            dy = dx = 1
+            pt, pb, pl, pr = min(pt, kh - 1), min(pb, kh - 1), min(pl, kw - 1), min(pr, kw - 1)
+            H2, W2 = (oh - 1) * sy + kh - pt - pb, (ow - 1) * sx + kw - pl - pr
+            X = fm(0x10000, H2, W2, d2)
+            if a_kind == "conv":
+                A["ifm"], A["ofm"] = fm(0x0, H2, W2, d1), X
+            else:
+                A["ifm"], A["ofm"] = fm(0x0, H2, W2, d2), X
+        B = dict(kind=b_kind, block_index=draw(st.integers(0, 60)), rounding="TFL", kernel=[kw, kh, sx, sy, dx, dy], padding=[pt, pl, pb, pr], upscale="NONE",
                  part_kernel=draw(st.booleans()), ifm=copy.deepcopy(X), ofm=fm(0x40000, oh, ow, d3 if b_kind == "conv" else d2))
         if b_kind == "pool":
             B["mode"] = draw(st.sampled_from(["MAX", "AVERAGE"]))
